@@ -319,7 +319,9 @@ impl PB {
         self.pad(8);
         self.end(s, true);
     }
-    /// blocks: (kind, payload) — kind 0 uncompressed, 1 stored-deflate, 2 invalid deflate
+    /// blocks: (kind, payload) — kind 0 uncompressed, 1 stored-deflate, 2 invalid deflate,
+    /// 3 / 4 stored-deflate whose header declares 2^20 / 2^20 + 1 decompressed bytes (the reader's
+    /// limit and one beyond it)
     pub fn file_op(&mut self, op: u8, offset: u64, file_size: u64, exp: u16, path: &[u8], blocks: &[(u8, Vec<u8>)]) {
         let s = self.sqpk(b'F', match op { b'A' => "addfile", b'D' => "delfile", b'R' => "removeall", _ => "mkdir" });
         self.num(op as u64, 1, false);
@@ -342,10 +344,11 @@ impl PB {
         for (kind, data) in blocks {
             let (x, y, body): (i32, i32, Vec<u8>) = match kind {
                 0 => (32000, data.len() as i32, data.clone()),
-                1 => {
+                1 | 3 | 4 => {
                     let mut b = vec![0x01, data.len() as u8, (data.len() >> 8) as u8, !(data.len() as u8), !((data.len() >> 8) as u8)];
                     b.extend_from_slice(data);
-                    (b.len() as i32, data.len() as i32, b)
+                    let declared = match kind { 1 => data.len() as i32, 3 => 1 << 20, _ => (1 << 20) + 1 };
+                    (b.len() as i32, declared, b)
                 }
                 _ => (data.len() as i32, 64, data.clone()),
             };
@@ -551,6 +554,37 @@ pub fn generate(thorough: bool, rng: &mut Rng, out: &mut dyn Write) {
             });
             for k in 0..q.v.len() {
                 writeln!(out, "apply dir - file {}", hex(&q.v[..k])).unwrap();
+            }
+        }
+        // the limit on a block's declared decompressed size (1 MiB), and many blocks at the limit
+        // (2 KiB of patch for 12–20 MiB of file: memory must stay at one block, not at the file;
+        // the 17th MiB crosses the harness' file-size limit).  Few cases: each writes megabytes.
+        let big: Vec<(u64, Vec<(u8, Vec<u8>)>)> = vec![
+            (1 << 20, vec![(3, vec![5; 9])]),
+            ((1 << 20) + 1, vec![(4, vec![5; 9])]),
+            ((1 << 20) + 1, vec![(3, vec![5; 9]), (0, vec![1])]),
+            (3 << 20, vec![(3, vec![]), (4, vec![]), (3, vec![])]),
+            (12 << 20, vec![(3, vec![]); 12]),
+            (1 << 40, vec![(3, vec![]); 12]),
+            (20 << 20, vec![(3, vec![]); 20]),
+            (u64::MAX, vec![(3, vec![1, 2, 3]); 16]),
+        ];
+        for (fsz, bl) in &big {
+            for off in [0u64, 1, 1 << 19] {
+                let mut q = PB::new();
+                q.target(0);
+                q.file_op(b'A', off, *fsz, 0, b"f.bin", bl);
+                q.eof();
+                writeln!(out, "apply dir - file {}", hex(&q.v)).unwrap();
+                // the target cannot be opened (it is a directory): the blocks are read and dropped
+                writeln!(out, "apply dir d:{} file {}", hex(b"f.bin"), hex(&q.v)).unwrap();
+                // an existing target
+                writeln!(out, "apply dir f:{} file {}", hex(b"f.bin"), hex(&q.v)).unwrap();
+                // the stream ends inside / right after the last block
+                let n = q.v.len();
+                for cut in [n - 4, n - 8, n - 12, n - 12 - 128, n - 12 - 129] {
+                    writeln!(out, "apply dir - file {}", hex(&q.v[..cut])).unwrap();
+                }
             }
         }
         // random blobs behind a valid header
